@@ -38,7 +38,7 @@ def tree_strategy(depth):
 
 
 TREE = tree_strategy(3)
-CASE = st.tuples(st.sampled_from(["upload_dir", "upload_dir", "upload_file", "download", "download", "listrec", "remove", "download_here"]),
+CASE = st.tuples(st.sampled_from(["upload_dir", "upload_dir", "upload_file", "download", "download", "listrec", "remove", "download_here", "upload_twice"]),
                  TREE, st.sampled_from(["", "d", "d1/d2", "/abs/d", "src"]), st.booleans(),
                  st.sampled_from(["/", "/r", "/r/sub"]), st.sampled_from([1, 3, 8192]), st.booleans(), st.booleans(),
                  st.booleans())
@@ -157,6 +157,28 @@ async def _run(loop, case, info):
                 kind = "misplaced" if d["missing"] and d["unexpected"] else ("missing" if d["missing"] else "unexpected")
                 raise Violation(f"C09/{op}/{kind}/write_into={write_into}/dest_parts={min(len(P(dest).parts), 2)}",
                                 dict(dest=dest, write_into=write_into, cwd=cwd, root=root, **d))
+        elif op == "upload_twice":
+            # state kept by the client between operations: the same relative destination from two working directories
+            if dest.startswith("/"):
+                dest = dest.lstrip("/")
+            await put(c.path_io, t, "/local/src")
+            src = P("/local/src")
+            before = harness.mem_tree(server)
+            exp = dict(before)
+            other = "/r/sub" if cwd != "/r/sub" else "/r"
+            for where in (cwd, other):
+                await c.change_directory(where)
+                await guarded(op, c.upload(src, dest, write_into=write_into, block_size=block))
+                root = P(where) / dest
+                if not write_into:
+                    root = root / src.name
+                exp.update(ancestors(str(root)))
+                exp.update(flat(t, str(root)))
+            after = harness.mem_tree(server)
+            if after != exp:
+                d = sdiff(after, exp)
+                kind = "misplaced" if d["missing"] and d["unexpected"] else ("missing" if d["missing"] else "unexpected")
+                raise Violation(f"C09/upload_twice/{kind}/write_into={write_into}", dict(dest=dest, write_into=write_into, cwd=cwd, **d))
         elif op == "download":
             await put(spio, t, "/r/src")
             target = "/r/src"
